@@ -254,3 +254,61 @@ Proof.
   - apply no_keys_all_permitted_ok.
   - apply no_verifier_permitted_ok.
 Qed.
+
+(* ---- client side: configuration and announcement histories ---- *)
+Lemma gm_config_all_or_nothing : forall (pubkey : Type) (entries : list (option pubkey)) keys,
+  grid_manager_keys_from_config entries = Some keys ->
+  entries = map Some keys.
+Proof.
+  intros pubkey. induction entries as [|[k|] r IH]; intros keys H; cbn in H.
+  - inversion H. reflexivity.
+  - destruct (grid_manager_keys_from_config r) as [ks|] eqn:E; [|discriminate].
+    inversion H; subst. cbn. rewrite (IH ks eq_refl). reflexivity.
+  - discriminate.
+Qed.
+
+Lemma gm_config_never_fails_open_full : forall (pubkey : Type) (entries : list (option pubkey)),
+  (* a non-empty section never yields "no grid manager" *)
+  (grid_manager_keys_from_config entries = Some [] -> entries = []) /\
+  (* one unusable entry refuses the whole configuration *)
+  (In None entries -> grid_manager_keys_from_config entries = None) /\
+  (* otherwise every configured key is used *)
+  (forall keys, grid_manager_keys_from_config entries = Some keys -> entries = map Some keys).
+Proof.
+  intros pubkey entries. split; [|split].
+  - intros H. apply gm_config_all_or_nothing in H. exact H.
+  - intros I. destruct (grid_manager_keys_from_config entries) as [ks|] eqn:E; [|reflexivity].
+    apply gm_config_all_or_nothing in E. subst entries. apply in_map_iff in I. destruct I as [x [Q _]]. discriminate.
+  - apply gm_config_all_or_nothing.
+Qed.
+
+Lemma latest_app_same : forall (msg sig : Type) (h : ann_history msg sig) id cs, latest (h ++ [(id, cs)]) id = Some cs.
+Proof.
+  intros msg sig. induction h as [|[i c] r IH]; intros id cs; cbn [app latest].
+  - rewrite N.eqb_refl. reflexivity.
+  - rewrite IH. reflexivity.
+Qed.
+
+Lemma latest_app_other : forall (msg sig : Type) (h : ann_history msg sig) id id' cs, id <> id' ->
+  latest (h ++ [(id, cs)]) id' = latest h id'.
+Proof.
+  intros msg sig. induction h as [|[i c] r IH]; intros id id' cs NE; cbn [app latest].
+  - destruct (N.eqb_spec id id'); [contradiction|reflexivity].
+  - rewrite (IH id id' cs NE). reflexivity.
+Qed.
+
+Lemma verifier_follows_latest_announcement_full :
+  forall (pubkey msg sig : Type) (verify : pubkey -> msg -> sig -> bool)
+         (spk : Type) (spk_eqb : spk -> spk -> bool) (decode : msg -> option (cert_json spk))
+         (keys : list pubkey) (h : ann_history msg sig) (id : N) (cs : list (signed_cert msg sig))
+         (public_key : spk) (now : Z),
+    broker_permitted verify spk_eqb decode keys (h ++ [(id, cs)]) id public_key now
+      = Some (permitted verify spk_eqb decode keys cs public_key now) /\
+    (forall id', id <> id' ->
+       broker_permitted verify spk_eqb decode keys (h ++ [(id, cs)]) id' public_key now
+       = broker_permitted verify spk_eqb decode keys h id' public_key now).
+Proof.
+  intros. unfold broker_permitted. split.
+  - rewrite latest_app_same. reflexivity.
+  - intros id' NE. rewrite (latest_app_other _ _ h id id' cs NE). reflexivity.
+Qed.
